@@ -149,7 +149,8 @@ def run(scratch, obligations, extra_flags=(), capture_playback=False):
     return results, meta
 
 
-CHECK_RE = re.compile(r"^Check \d+: (.+)\n\t - Status: (\w+)\n\t - Description: \"(.*)\"\n(?:\t - Location: (.*)\n)?", re.M)
+# the description may span several lines (assert! over a condition that rustfmt broke across lines)
+CHECK_RE = re.compile(r"^Check \d+: (.+)\n\t - Status: (\w+)\n\t - Description: \"((?:.|\n(?!\t - |Check \d+: |\n))*)\"\n(?:\t - Location: (.*)\n)?", re.M)
 
 
 def triage(o, full, raw, whole_out):
@@ -164,7 +165,7 @@ def triage(o, full, raw, whole_out):
     m = re.search(r"Verification Time: ([0-9.]+)s", raw)
     if m:
         r["time_s"] = float(m.group(1))
-    checks = CHECK_RE.findall(raw)
+    checks = [(n, st, re.sub(r"\s*\n\s*", " ", d), loc) for n, st, d, loc in CHECK_RE.findall(raw)]
     r["checks"] = len([c for c in checks if ".cover." not in c[0]])
     failed_real = []
     failed_undec = []
@@ -190,7 +191,7 @@ def triage(o, full, raw, whole_out):
                 failed_real.append(item)
     if not failed_real and not failed_undec and "VERIFICATION:- FAILED" in raw:
         # fallback: the per-check list could not be parsed; use the summary lines
-        for m in re.finditer(r"^Failed Checks: (.*)\n File: (.*)$", raw, re.M):
+        for m in re.finditer(r"^Failed Checks: ((?:.|\n(?! File: ))*)\n File: (.*)$", raw, re.M):
             item = {"check": "?", "description": m.group(1).strip(), "location": m.group(2).strip()}
             (failed_undec if any(re.search(p, item["description"]) for p in UNDECIDED_PATTERNS) else failed_real).append(item)
     if stub_cov_total:
